@@ -346,7 +346,11 @@ def _policy_edges(b):
 
 
 def r12_6(ctx):
-    """abandonment is per message: once a (stream, ssn) is in the abandon set, every chunk record of that
+    """RETIRED (not in run()): since the receiver drops fragments that arrive without their B fragment (fix 1f995e1) and
+    discards the message in progress when a FORWARD-TSN skips past it (fix e6f5fa7, R12.11), a sender that abandons only
+    part of a message can no longer make a rustrtc receiver deliver a fabricated message - the rule would demand more than
+    the property. Kept for reference.
+    abandonment is per message: once a (stream, ssn) is in the abandon set, every chunk record of that
     message is marked abandoned - no per-chunk predicate (acked, in_flight ..) may let a chunk of the message
     escape, else FORWARD-TSN stops short of the message end and the receiver assembles the remaining tail
     fragments into a message nobody submitted."""
@@ -814,4 +818,4 @@ def r12_15(ctx):
 
 
 def run(ctx):
-    return [r12_1(ctx), r12_2(ctx), r12_2b(ctx), r12_3(ctx), r12_4(ctx), r12_5(ctx), r12_6(ctx), r12_7(ctx), r12_8(ctx), r12_9(ctx), r12_10(ctx), r12_11(ctx), r12_12(ctx), r12_13(ctx), r12_14(ctx), r12_15(ctx)]
+    return [r12_1(ctx), r12_2(ctx), r12_2b(ctx), r12_3(ctx), r12_4(ctx), r12_5(ctx), r12_7(ctx), r12_8(ctx), r12_9(ctx), r12_10(ctx), r12_11(ctx), r12_12(ctx), r12_13(ctx), r12_14(ctx), r12_15(ctx)]
